@@ -375,21 +375,27 @@ def expected_gate_tags(before, where, user, prop, inds):
               "and 3 sites given as matrix or tensor; every contract mode (False, True, split, reduce-split, split-gate, "
               "swap-split-gate, auto-split-gate; for MPS also swap+split, nonlocal, auto-mps) through .gate and .gate_inds; "
               "plain / transpose / dagger; propagate_tags in {default, False, True, 'sites', 'register'}; inplace and copy; "
-              "cutoff=0; tolerance 1e-9 relative (1e-7 for the MPO-based 'nonlocal' route)")
+              "cutoff=0; real / complex double precision, complex64 on five of the geometries; tolerance 1e-9 relative (1e-7 "
+              "for the MPO-based 'nonlocal' route, 5e-4 in single precision)")
 def vector_modes(cx):
     warnings.simplefilter("ignore")
     import quimb.tensor as qtn
 
     rng = cx.rng
     sel = _selector(cx, 601)
-    nvar = 2 if cx.quick else 10
+    nvar = 5 if cx.quick else 40
     for name, kind, spec in geometries(cx.quick):
         if kind not in ("mps", "peps", "graph"):
             continue
-        for cplx in (False, True):
+        for cplx in (False, True, "single"):
+            if cplx == "single" and name not in ("mps4", "mps5mixed", "peps23", "ring4", "mps3cyc"):
+                continue
             # the network and the targets are the same in every chunk: use the selector for them
-            gsel = np.random.default_rng([cx.seed, 77, int(cplx), sum(map(ord, name))])
-            tn, sites, dims = make(qtn, gsel, kind, spec, cplx)
+            gsel = np.random.default_rng([cx.seed, 77, {False: 0, True: 1, "single": 2}[cplx], sum(map(ord, name))])
+            tn, sites, dims = make(qtn, gsel, kind, spec, bool(cplx))
+            single = cplx == "single"
+            if single:
+                tn.astype_("complex64")
             cyclic = bool(spec.get("cyclic", False))
             base = site_dense(tn, kind, sites)
             snap = snapshot(tn)
@@ -414,7 +420,9 @@ def vector_modes(cx):
                         entry = ("gate", "gate", "gate_inds")[d[5] % 3]
                         if mode in MPS_MODES:
                             entry = "gate"
-                        G, Gt = rand_gate(rng, gdims, cplx, form)
+                        G, Gt = rand_gate(rng, gdims, bool(cplx), form)
+                        if single:
+                            G, Gt = G.astype("complex64"), Gt.astype("complex64")
                         params = dict(geom=name, cplx=cplx, where=[str(s) for s in where], mode=mode, form=form, how=how,
                                       propagate_tags=prop, inplace=inplace, tags=user_tags is not None, entry=entry, v=v)
                         must = must_accept(kind, cyclic, mode, where, tn, sites, how, entry)
@@ -422,7 +430,7 @@ def vector_modes(cx):
 
                         def thunk(tn=tn, G=G, Gt=Gt, where=where, mode=mode, how=how, prop=prop, inplace=inplace,
                                   user_tags=user_tags, entry=entry, axes=axes, ng=ng, inds=inds, kind=kind, sites=sites,
-                                  base=base, snap=snap):
+                                  base=base, snap=snap, single=single):
                             target = tn.copy() if inplace else tn
                             kw = dict(contract=mode)
                             if how == "dagger":
@@ -448,6 +456,8 @@ def vector_modes(cx):
                             got = site_dense(after, kind, sites)
                             e = rel_err(got, ref)
                             tol = 1e-7 if mode in ("nonlocal", "auto-mps") else TOL
+                            if single:
+                                tol = 5e-4
                             if isinstance(e, str) or e > tol:
                                 return f"dense(after) != (embedded operator) @ dense(before): {e if isinstance(e, str) else f'relative error {e:.3e}'}"
                             keep = (ng == 1 and mode is not False and mode not in LAZY) or \
@@ -503,7 +513,7 @@ def mps_entry(cx):
     import quimb.tensor as qtn
 
     rng = cx.rng
-    nrep = 1 if cx.quick else 6
+    nrep = 2 if cx.quick else 16
     for name, kind, spec in geometries(cx.quick):
         if kind != "mps" or spec["cyclic"] or len(spec["dims"]) < 2:
             continue
@@ -639,7 +649,7 @@ def operator_gates(cx):
 
     rng = cx.rng
     sel = _selector(cx, 603)
-    nvar = 2 if cx.quick else 8
+    nvar = 4 if cx.quick else 30
     for name, kind, spec in geometries(cx.quick):
         if kind not in ("mpo", "gop"):
             continue
@@ -764,6 +774,76 @@ def operator_gates(cx):
                                  params, thunk)
 
 
+@driver("C06", "operator-with-op-lazy", chunks=2, timeout=300,
+        bound="gate_upper_with_op_lazy / gate_lower_with_op_lazy / gate_sandwich_with_op_lazy on MPO (3, 4 sites, open; 3 sites "
+              "periodic) and general operator networks with an operator network of the same geometry (full support) and, for "
+              "open MPOs, with a sub-MPO supported on 2 of the sites; transpose / dagger; in-place and copy; tolerance 1e-9")
+def op_lazy(cx):
+    warnings.simplefilter("ignore")
+    import quimb.tensor as qtn
+
+    rng = cx.rng
+    nvar = 2 if cx.quick else 12
+    for name, kind, spec in geometries(cx.quick):
+        if kind not in ("mpo", "gop") or len(spec["dims"]) < 2:
+            continue
+        for cplx in (False, True):
+            gsel = np.random.default_rng([cx.seed, 82, int(cplx), sum(map(ord, name))])
+            X, sites, dims = make(qtn, gsel, kind, spec, cplx)
+            n = len(sites)
+            D = int(np.prod(dims, dtype=int))
+            Xd = site_dense(X, kind, sites).reshape(D, D)
+            snap = snapshot(X)
+            supports = ["full"] + (["sub"] if (kind == "mpo" and not spec["cyclic"] and n >= 3) else [])
+            for support, entry, flag, v in itertools.product(supports, ("upper", "lower", "sandwich"), (False, True), range(nvar)):
+                if not cx.mine():
+                    continue
+                inplace = bool(v % 2)
+                seed = int(rng.integers(1 << 30))
+                params = dict(geom=name, cplx=cplx, entry=f"gate_{entry}_with_op_lazy", support=support, flag=flag, inplace=inplace, v=v)
+
+                def thunk(X=X, kind=kind, spec=spec, cplx=cplx, sites=sites, dims=dims, n=n, D=D, Xd=Xd, snap=snap, support=support,
+                          entry=entry, flag=flag, inplace=inplace, seed=seed):
+                    r = np.random.default_rng(seed)
+                    if support == "full":
+                        A, _, _ = make(qtn, r, kind, spec, cplx)
+                        Ad = site_dense(A, kind, sites).reshape(D, D)
+                    else:
+                        w = sorted(int(t) for t in r.permutation(n)[:2])
+                        gd = [dims[a] for a in w]
+                        G, Gt = rand_gate(r, gd, cplx, "matrix")
+                        A = qtn.MatrixProductOperator.from_dense(G, dims=gd, sites=w, L=n)
+                        Asub = dense_of(A, [A.upper_ind(s) for s in w] + [A.lower_ind(s) for s in w])
+                        eye = np.eye(D).reshape(tuple(dims) + tuple(dims))
+                        Ad = apply_op(Asub, w, eye).reshape(D, D)
+                    target = X.copy() if inplace else X
+                    fn = getattr(target, f"gate_{entry}_with_op_lazy" + ("_" if inplace else ""))
+                    if entry == "sandwich":
+                        after = fn(A, dagger=flag)
+                        M = Ad.conj().T if flag else Ad
+                        ref = M @ Xd @ M.conj().T
+                    elif entry == "upper":
+                        after = fn(A, transpose=flag)
+                        ref = (Ad.T if flag else Ad) @ Xd
+                    else:
+                        after = fn(A, transpose=flag)
+                        ref = Xd @ (Ad.T if flag else Ad)
+                    if inplace and after is not target:
+                        return "the in-place spelling returned a different object"
+                    if not inplace and (after is X or not unchanged(X, snap)):
+                        return "the input network was modified by the non-in-place spelling"
+                    if set(after.outer_inds()) != set(X.outer_inds()):
+                        return f"outer labels {sorted(after.outer_inds())} != {sorted(X.outer_inds())}"
+                    e = rel_err(site_dense(after, kind, sites).reshape(D, D), ref)
+                    if isinstance(e, str) or e > TOL:
+                        return f"dense(after) != reference: {e if isinstance(e, str) else f'relative error {e:.3e}'}"
+                    pr = structure_problems(X, after, kind, sites, False)
+                    return "; ".join(pr) or None
+
+                cx.check("gate_{upper,lower,sandwich}_with_op_lazy: dense(after) == A X / X A / A X A^dagger (transposed / adjoint "
+                         "variants), outer labels preserved", params, thunk)
+
+
 def neighbours_op(tn, a, b):
     ta = tn.select_tensors(tn.site_tag(a), "all")
     tb = tn.select_tensors(tn.site_tag(b), "all")
@@ -789,3 +869,283 @@ def where_choices_op(tn, sites, rng_sel, quick):
         tri = list(rng_sel.permutation(n)[:3])
         out.append(tuple(sites[i] for i in tri))
     return out
+
+
+# ----------------------------------------------------------------------------------------------
+# driver 4: raw labels -- TensorNetwork.gate_inds on plain networks, gate_inds_with_tn, Tensor.gate
+# ----------------------------------------------------------------------------------------------
+
+RAW_NETS = {
+    # name: list of (labels, dims) per tensor; outer labels appear once
+    "plain": [(("p", "x", "q"), (2, 3, 2)), (("x", "r", "s"), (3, 3, 2))],
+    # labels that coincide with the names used internally by the lazily split gate ('b', 'l0', 'r0', ...)
+    "clash-b": [(("b", "x", "l0"), (2, 3, 2)), (("x", "r0", "r1"), (3, 2, 2))],
+    "clash-lr": [(("l0", "x", "l1"), (2, 3, 3)), (("x", "r0", "r1"), (3, 2, 2))],
+    "one-tensor": [(("u", "v", "w"), (2, 3, 2))],
+    "three": [(("a", "x"), (2, 2)), (("x", "y", "c"), (2, 3, 3)), (("y", "d", "e"), (3, 2, 1))],
+}
+
+
+@driver("C06", "raw-labels", chunks=3, timeout=300,
+        bound="TensorNetwork.gate_inds on plain TensorNetwork objects (two / three tensors, a single tensor, labels "
+              "that coincide with the internal names 'b', 'l0', 'r0', 'l1', 'r1' of the lazily split gate) with every contract "
+              "mode, 1..3 target labels in any order, transpose / dagger, stored exponent; gate_inds_with_tn with a two-tensor "
+              "gate network (targets present and absent); Tensor.gate (preserve_inds, transpose, rectangular matrices); "
+              "tolerance 1e-9")
+def raw_labels(cx):
+    warnings.simplefilter("ignore")
+    import quimb.tensor as qtn
+
+    rng = cx.rng
+    sel = _selector(cx, 604)
+    nvar = 4 if cx.quick else 30
+    for name, spec in RAW_NETS.items():
+        for cplx in (False, True):
+            gsel = np.random.default_rng([cx.seed, 80, int(cplx), sum(map(ord, name))])
+            ts = [qtn.Tensor(_rand(gsel, dims, cplx), inds=labels, tags=f"T{k}") for k, (labels, dims) in enumerate(spec)]
+            count = {}
+            size = {}
+            for labels, dims in spec:
+                for x, dd in zip(labels, dims):
+                    count[x] = count.get(x, 0) + 1
+                    size[x] = dd
+            outer = [x for x in count if count[x] == 1]
+            for exponent in (0.0, 1.5):
+                tn = qtn.TensorNetwork(ts)
+                tn.exponent = exponent
+                base = dense_of(tn, outer)
+                snap = snapshot(tn)
+                targets = [(outer[0],), (outer[-1],), (outer[0], outer[-1]), (outer[-1], outer[0]), (outer[1], outer[0])]
+                if len(outer) >= 3:
+                    targets += [(outer[2], outer[0], outer[1]), (outer[1], outer[2])]
+                for inds in targets:
+                    ng = len(inds)
+                    axes = [outer.index(x) for x in inds]
+                    gdims = [size[x] for x in inds]
+                    for mode in GEN_MODES:
+                        for v in range(nvar):
+                            d = [int(x) for x in sel.integers(0, 1 << 30, size=4)]
+                            if not cx.mine():
+                                continue
+                            form = ("matrix", "tensor")[d[0] % 2]
+                            how = ("plain", "plain", "dagger", "transpose")[d[1] % 4]
+                            inplace = bool(d[2] % 2)
+                            G, Gt = rand_gate(rng, gdims, cplx, form)
+                            params = dict(net=name, cplx=cplx, exponent=exponent, inds=list(inds), mode=mode, form=form, how=how,
+                                          inplace=inplace, v=v)
+                            holders = [k for k, (labels, _) in enumerate(spec) if set(labels) & set(inds)]
+                            two_nb = False
+                            if ng == 2 and len(holders) == 2:
+                                sh = set(spec[holders[0]][0]) & set(spec[holders[1]][0])
+                                two_nb = len(sh) == 1 and count[next(iter(sh))] == 2
+                            must = ng == 1 or (ng == 2 and (mode not in ("split", "reduce-split") or two_nb or len(holders) == 1)) \
+                                or (ng >= 3 and mode in (False, True))
+
+                            def thunk(tn=tn, G=G, Gt=Gt, inds=inds, mode=mode, how=how, inplace=inplace, axes=axes, ng=ng,
+                                      outer=outer, base=base, snap=snap):
+                                target = tn.copy() if inplace else tn
+                                kw = dict(contract=mode)
+                                if how == "dagger":
+                                    kw["dagger"] = True
+                                elif how == "transpose":
+                                    kw["transpose"] = True
+                                if mode not in (False, True):
+                                    kw["cutoff"] = 0.0
+                                arg = inds[0] if (ng == 1 and False) else list(inds)
+                                after = target.gate_inds_(G, arg, **kw) if inplace else target.gate_inds(G, arg, **kw)
+                                if inplace and after is not target:
+                                    return "the in-place spelling returned a different object"
+                                if not inplace and (after is tn or not unchanged(tn, snap)):
+                                    return "the input network was modified by the non-in-place spelling"
+                                if set(after.outer_inds()) != set(outer):
+                                    return f"outer labels {sorted(after.outer_inds())} != {sorted(outer)}"
+                                ref = apply_op(op_variant(Gt, ng, how), axes, base)
+                                e = rel_err(dense_of(after, outer), ref)
+                                if isinstance(e, str) or e > TOL:
+                                    return f"dense(after) != reference: {e if isinstance(e, str) else f'relative error {e:.3e}'}"
+                                return None
+
+                            cx.check("TensorNetwork.gate_inds: dense(after) == operator on the given labels (in order) @ dense(before), "
+                                     "same outer labels, stored exponent kept", params, thunk, allow_reject=not must,
+                                     crash_is_violation=must)
+    # gate_inds_with_tn: the gate is itself a network
+    for i in range(40 if cx.quick else 400):
+        d = [int(x) for x in sel.integers(0, 1 << 30, size=6)]
+        if not cx.mine():
+            continue
+        cplx = bool(d[0] % 2)
+        da, db, dc = 2 + d[1] % 2, 2 + d[2] % 2, 1 + d[3] % 3
+        A = qtn.Tensor(_rand(rng, (da, 3, dc), cplx), inds=("a", "x", "c"), tags="A")
+        B = qtn.Tensor(_rand(rng, (3, db), cplx), inds=("x", "b"), tags="B")
+        tn = qtn.TensorNetwork([A, B])
+        # gate network: two tensors joined by a bond, outer labels o0,o1 (new outer), inner i0,i1 (joined to the targets)
+        case = d[4] % 3
+        g1 = qtn.Tensor(_rand(rng, (da, da, 2), cplx), inds=("o0", "i0", "g"), tags="G1")
+        if case == 2:
+            # second target label absent from the network: both its inner and outer label stay outer
+            g2 = qtn.Tensor(_rand(rng, (2, 3, 2), cplx), inds=("g", "o1", "i1"), tags="G2")
+            targets = ("a", "zz")
+        else:
+            g2 = qtn.Tensor(_rand(rng, (2, db, db), cplx), inds=("g", "o1", "i1"), tags="G2")
+            targets = ("a", "b")
+        gate = qtn.TensorNetwork([g1, g2])
+        inplace = bool(d[5] % 2)
+        params = dict(entry="gate_inds_with_tn", cplx=cplx, dims=[da, db, dc], case=case, inplace=inplace, i=i)
+
+        def thunk(tn=tn, gate=gate, targets=targets, case=case, inplace=inplace):
+            base = dense_of(tn, ("a", "b", "c"))
+            target = tn.copy() if inplace else tn
+            snap = snapshot(tn)
+            fn = target.gate_inds_with_tn_ if inplace else target.gate_inds_with_tn
+            after = fn(list(targets), gate, ["i0", "i1"], ["o0", "o1"])
+            if not inplace and not unchanged(tn, snap):
+                return "the input network was modified"
+            if case == 2:
+                Gd = dense_of(gate, ("o0", "o1", "i0", "i1"))
+                want = ("a", "b", "c", "o1", "i1")
+                if set(after.outer_inds()) != set(want):
+                    return f"outer labels {sorted(after.outer_inds())} != {sorted(want)}"
+                ref = np.einsum("poiq,ibc->pbcoq", Gd, base)
+                e = rel_err(dense_of(after, want), ref)
+            else:
+                Gd = dense_of(gate, ("o0", "o1", "i0", "i1"))
+                if set(after.outer_inds()) != {"a", "b", "c"}:
+                    return f"outer labels {sorted(after.outer_inds())}"
+                ref = apply_op(Gd, [0, 1], base)
+                e = rel_err(dense_of(after, ("a", "b", "c")), ref)
+            if isinstance(e, str) or e > TOL:
+                return f"dense(after) != reference: {e if isinstance(e, str) else f'relative error {e:.3e}'}"
+            return None
+
+        cx.check("TensorNetwork.gate_inds_with_tn: the gate network is wired between the target labels and the outside", params, thunk)
+    # Tensor.gate
+    for i in range(60 if cx.quick else 600):
+        d = [int(x) for x in sel.integers(0, 1 << 30, size=8)]
+        if not cx.mine():
+            continue
+        cplx = bool(d[0] % 2)
+        shape = [(3,), (2, 3), (2, 3, 2), (1, 4, 2), (2, 2, 2, 3)][d[1] % 5]
+        inds = tuple("abcd"[:len(shape)])
+        ax = d[2] % len(shape)
+        transpose = bool(d[3] % 2)
+        preserve = bool(d[4] % 2)
+        inplace = bool(d[5] % 2)
+        dnew = shape[ax] if d[6] % 3 else 1 + d[6] % 4  # rectangular matrices change the dimension
+        data = _rand(rng, shape, cplx)
+        G = _rand(rng, (shape[ax], dnew) if transpose else (dnew, shape[ax]), cplx)
+        params = dict(entry="Tensor.gate", cplx=cplx, shape=list(shape), ax=ax, transpose=transpose, preserve_inds=preserve,
+                      inplace=inplace, dnew=dnew, i=i)
+
+        def thunk(data=data, G=G, inds=inds, ax=ax, transpose=transpose, preserve=preserve, inplace=inplace):
+            t = qtn.Tensor(data.copy(), inds=inds, tags="T")
+            r = (t.gate_ if inplace else t.gate)(G, inds[ax], preserve_inds=preserve, transpose=transpose)
+            if inplace and r is not t:
+                return "in-place spelling returned another object"
+            if not inplace and (not np.array_equal(t.data, data) or t.inds != inds):
+                return "input tensor modified"
+            M = G.T if transpose else G
+            ref = np.moveaxis(np.tensordot(M, data, axes=(1, ax)), 0, ax)
+            if set(r.inds) != set(inds):
+                return f"labels {r.inds} != {inds}"
+            if preserve and r.inds != inds:
+                return f"preserve_inds: label order {r.inds} != {inds}"
+            got = np.transpose(np.asarray(r.data), [r.inds.index(x) for x in inds])
+            e = rel_err(got, ref)
+            if isinstance(e, str) or e > TOL:
+                return f"gated tensor != G x: {e if isinstance(e, str) else f'relative error {e:.3e}'}"
+            if "T" not in r.tags:
+                return "tags lost"
+            return None
+
+        cx.check("Tensor.gate: x <- G x (x <- G^T x with transpose) on one label, labels kept", params, thunk)
+
+
+# ----------------------------------------------------------------------------------------------
+# driver 5: simple-update gate with bond gauges, nearest neighbour and long range
+# ----------------------------------------------------------------------------------------------
+
+
+def _gauged_dense(tn, gauges, out):
+    """dense form of a network whose bonds carry the given gauge vectors (numpy only)"""
+    ops = [(np.asarray(t.data), list(t.inds)) for t in tn.tensors]
+    for ix, s in gauges.items():
+        holders = [k for k, (_, la) in enumerate(ops) if ix in la]
+        if not holders:
+            continue
+        k = holders[0]
+        a, la = ops[k]
+        shp = [1] * a.ndim
+        shp[la.index(ix)] = -1
+        ops[k] = (a * np.asarray(s).reshape(shp), la)
+
+    class _T:
+        def __init__(self, a, la):
+            self.data, self.inds = a, tuple(la)
+
+    class _N:
+        tensors = [_T(a, la) for a, la in ops]
+        exponent = getattr(tn, "exponent", 0.0)
+
+    return dense_of(_N, out)
+
+
+@driver("C06", "gate-simple", chunks=2, timeout=300,
+        bound="gate_simple_ (simple-update gate with bond gauges, renorm=False, cutoff=0, smudge 1e-12) on PEPS 2x3, a tree, a "
+              "ring and an open MPS: 1-site, nearest-neighbour and long-range (disconnected target tensors) 2-site gates in "
+              "both orders, plain / transpose / dagger, with empty and with random positive gauges on every bond; the denoted "
+              "state is the network with the gauges multiplied into their bonds; tolerance 1e-7")
+def gate_simple(cx):
+    warnings.simplefilter("ignore")
+    import quimb.tensor as qtn
+
+    rng = cx.rng
+    sel = _selector(cx, 605)
+    nvar = 3 if cx.quick else 20
+    for name, kind, spec in geometries(cx.quick):
+        if name not in ("peps23", "tree5", "ring4", "mps5mixed", "mps4", "two"):
+            continue
+        for cplx in (False, True):
+            gsel = np.random.default_rng([cx.seed, 81, int(cplx), sum(map(ord, name))])
+            tn, sites, dims = make(qtn, gsel, kind, spec, cplx)
+            bonds = list(tn.inner_inds())
+            for where in where_choices(tn, sites, gsel, True):
+                if len(where) > 2:
+                    continue
+                for gauged in (False, True):
+                    for v in range(nvar):
+                        d = [int(x) for x in sel.integers(0, 1 << 30, size=4)]
+                        if not cx.mine():
+                            continue
+                        how = ("plain", "dagger", "transpose")[d[0] % 3]
+                        form = ("matrix", "tensor")[d[1] % 2]
+                        ng = len(where)
+                        axes = [sites.index(s) for s in where]
+                        gdims = [dims[a] for a in axes]
+                        G, Gt = rand_gate(rng, gdims, cplx, form)
+                        g0 = {ix: rng.uniform(0.5, 1.5, size=tn.ind_size(ix)) for ix in bonds} if gauged else {}
+                        params = dict(geom=name, cplx=cplx, where=[str(s) for s in where], gauged=gauged, how=how, form=form, v=v)
+
+                        def thunk(tn=tn, G=G, Gt=Gt, where=where, how=how, g0=g0, axes=axes, ng=ng, sites=sites, kind=kind):
+                            out = [tn.site_ind(s) for s in sites]
+                            base = _gauged_dense(tn, g0, out)
+                            gauges = {k: np.array(s) for k, s in g0.items()}
+                            target = tn.copy()
+                            kw = {}
+                            if how == "dagger":
+                                kw["dagger"] = True
+                            elif how == "transpose":
+                                kw["transpose"] = True
+                            after = target.gate_simple_(G, where, gauges, renorm=False, cutoff=0.0, **kw)
+                            if after is not target:
+                                return "gate_simple_ returned a different object"
+                            if set(after.outer_inds()) != set(out):
+                                return f"outer labels {sorted(after.outer_inds())} != {sorted(out)}"
+                            ref = apply_op(op_variant(Gt, ng, how), axes, base)
+                            e = rel_err(_gauged_dense(after, gauges, out), ref)
+                            if isinstance(e, str) or e > 1e-7:
+                                return f"gauged dense(after) != reference: {e if isinstance(e, str) else f'relative error {e:.3e}'}"
+                            pr = structure_problems(tn, after, kind, sites, True)
+                            return "; ".join(pr) or None
+
+                        cx.check("gate_simple_: (network with its bond gauges) after == embedded operator @ (network with its bond "
+                                 "gauges) before, structure preserved", params, thunk)
